@@ -527,7 +527,7 @@ def refcount_obligations(ctx, prog, pfx):
             a = strip_casts(P.expr(c.ops[0]))
             if a[0] == 'load' and path_key(a[1][2]).endswith('.buffer'):
                 rel.append((f, P, c, a))
-    ctx.floor(pfx + ' expand.c: releases of a shared input block', len(rel), 3)
+    ctx.floor(pfx + ' expand.c: releases of a shared input block', len(rel), 1)
     for f, P, c, a in rel:
         base = addr_key(a[1])[:-len('.buffer')]          # the block object
         gs = rules_guards(f, P, c.block.name)
